@@ -40,6 +40,20 @@ func c11Boundary(n int) []gen.Num {
 	return out
 }
 
+// c11Tiny: slices with every bound in {omitted,-2,-1,0,1,2} (216), used for nested slices.
+func c11Tiny() []gen.Sub {
+	vals := []gen.Num{gen.Om(), gen.N(-2), gen.N(-1), gen.N(0), gen.N(1), gen.N(2)}
+	var out []gen.Sub
+	for _, s := range vals {
+		for _, e := range vals {
+			for _, t := range vals {
+				out = append(out, gen.Slice(s, e, t))
+			}
+		}
+	}
+	return out
+}
+
 // c11Unit: family 0 = small (start,end fixed by the unit; all steps, lengths),
 // family 1 = boundary (start fixed by unit, length fixed by unit; all ends, steps),
 // family 2 = indices, family 3 = out-of-range integers must be rejected by Parse.
@@ -67,6 +81,10 @@ func newC11(tier string) run.Job {
 		}
 	}
 	j.units = append(j.units, c11Unit{2, 0, 0}, c11Unit{3, 0, 0})
+	// family 4: a slice applied to the elements selected by another slice (outer slice fixed by the unit)
+	for a := range c11Tiny() {
+		j.units = append(j.units, c11Unit{4, a, 0})
+	}
 	return j
 }
 
@@ -223,6 +241,52 @@ func (j *c11Job) RunUnit(i int, c *run.Ctx) {
 				j.evalSub(c, gen.Sub{Kind: gen.SIndex, N: v}, n, parsed)
 			}
 		}
+	case 4:
+		outer := c11Tiny()[u.a]
+		for _, inner := range c11Tiny() {
+			p := gen.P('$', gen.Union(outer), gen.Union(inner))
+			r := gen.Render(p, nil)
+			pr := impl.Parse(r.Text, &j.env.Cfg)
+			if pr.F == nil {
+				continue
+			}
+			for _, dims := range [][2]int{{2, 2}, {3, 2}, {2, 3}, {3, 3}} {
+				c.Tick()
+				doc := make([]interface{}, dims[0])
+				for i := range doc {
+					row := make([]interface{}, dims[1])
+					for k := range row {
+						row[k] = float64(10*i + k)
+					}
+					doc[i] = row
+				}
+				out := spec.Eval(p, doc, j.env.Model)
+				res := impl.Call(pr.F, doc)
+				c.Evals++
+				c.Traces++
+				c.States++
+				c.Transitions += 2
+				c.Outcome("nested/" + res.Key())
+				if len(out.Nodes) > 0 {
+					c.Nontrivial++
+				}
+				if ok, kind, detail := c01Judge(&out, res); !ok {
+					// a fresh Parse decides (history dependence is C05's)
+					if fp := impl.Parse(r.Text, &j.env.Cfg); fp.F != nil {
+						if fok, _, _ := c01Judge(&out, impl.Call(fp.F, doc)); fok {
+							c.Add("history_dependence_seen", 1)
+							continue
+						}
+					}
+					c.Violate(run.Violation{
+						Sig:    "nested-" + kind + ":" + c11SignSig(outer) + c11SignSig(inner),
+						Detail: fmt.Sprintf("%s on %s: %s", r.Text, gen.JSON(doc), detail),
+						Size:   len(r.Text)*100 + dims[0]*dims[1],
+						Case:   caseOfP("C11", p, r.Text, gen.JSON(doc), modeFloat, "funcs"),
+					})
+				}
+			}
+		}
 	case 3:
 		// integers outside the int range must be rejected at parse time with ErrorInvalidArgument
 		for _, raw := range []string{"9223372036854775808", "-9223372036854775809", "1000000000000000000000000000000", "+9223372036854775808"} {
@@ -343,13 +407,13 @@ func init() {
 	run.Register(&run.Check{
 		ID:    "C11",
 		Level: "model_checking",
-		Rule:  "every (subscript, array length, position) is a distinct case; positions: alone, inside a union [s,0,s], after recursive descent; non-trivial = the slice/index selects at least one element",
+		Rule:  "every (subscript, array length, position) is a distinct case; positions: alone, inside a union [s,0,s], after recursive descent, and applied to the elements selected by another slice (nested); non-trivial = the slice/index selects at least one element",
 		Assumptions: []string{
 			"oracle = Python slice semantics computed with math/big (spec.PySlice), itself recomputed by the real python3 over the whole table in every run",
 			"array elements are their own indices, so a selected value outside [0,len) is detected directly",
 		},
 		Bounds: map[string]string{
-			"quick":    "start,end,step in {omitted} U [-7..7] (both spellings of an omitted step), lengths 0..6 - 28,672+ slices completely; every combination of bounds from {omitted,-2..2,+-2^31,+-(2^63-1),-2^63,+-(2^63-2),+-len,+-(len+1)}; every index from the same sets; out-of-int-range integers at each position",
+			"quick":    "start,end,step in {omitted} U [-7..7] (both spellings of an omitted step), lengths 0..6 - 28,672+ slices completely; every combination of bounds from {omitted,-2..2,+-2^31,+-(2^63-1),-2^63,+-(2^63-2),+-len,+-(len+1)}; every index from the same sets; out-of-int-range integers at each position; every pair (outer, inner) of the 216 slices with bounds in {omitted,-2..2} on 2x2..3x3 arrays of arrays",
 			"thorough": "same as quick (the space is enumerated completely in both tiers)",
 		},
 		New: newC11,
